@@ -5,3 +5,5 @@ Import ListNotations.
 Definition c19_server_receive_limit : Z := 204800%Z.
 Definition c19_client_receive_limit : Z := 1048576%Z.
 Definition c19_pad_field_numbers : list Z := [2; 2; 2; 2; 3]%Z.
+Definition c19_server_read_limiters : list Z := [0]%Z.
+Definition c19_client_read_limiters : list Z := [0]%Z.
